@@ -81,9 +81,26 @@ def run(ctx, repo):
             isinstance(t, ast.Subscript) and isinstance(t.value, ast.Name) and t.value.id in muts for t in n.targets)]
         cache_names = {c.args[0].id for c in stores if c.args and isinstance(c.args[0], ast.Name)} | \
             {t.value.id for n in sub_stores for t in n.targets if isinstance(t, ast.Subscript)}
-        if len(cache_names) != 1:
-            raise AnalysisError('%s: expected exactly one memo dict, found %s' % (fname, sorted(cache_names)))
-        cache = cache_names.pop()
+        # the function's own cache is the one its hit test reads; stores into any other cache are reported
+        own = None
+        for st in fn.body:
+            if isinstance(st, ast.If):
+                for cn in sorted(cache_names):
+                    if cn in ast.unparse(st.test) and own is None:
+                        own = cn
+        if own is None:
+            if len(cache_names) != 1:
+                raise AnalysisError('%s: cannot tell which of %s is its own memo' % (fname, sorted(cache_names)))
+            own = sorted(cache_names)[0]
+        for other in sorted(cache_names - {own}):
+            site = [c for c in stores if c.args and isinstance(c.args[0], ast.Name) and c.args[0].id == other]
+            ctx.finding('R2', '%s::%s::stores into %s' % (UTILS, fname, other), UTILS, site[0].lineno if site else fn.lineno,
+                        '%s also fills %s, the memo of another function, under a key it builds itself (%s): that function later answers '
+                        'from an entry it never computed' % (fname, other, unparse(site[0].args[1]) if site else '?'),
+                        'a successful %s first, then the other function with that key' % fname)
+        stores = [c for c in stores if not (c.args and isinstance(c.args[0], ast.Name) and c.args[0].id != own)]
+        sub_stores = [n for n in sub_stores if all(not (isinstance(t, ast.Subscript) and t.value.id != own) for t in n.targets)]
+        cache = own
         caches.add(cache)
         ctx.sample({'function': fname, 'key': key, 'non_key_params': sorted(nonkey), 'cache': cache, 'store_sites': len(stores) + len(sub_stores)})
         for c in stores + sub_stores:
